@@ -82,6 +82,19 @@ pub fn block_on<F: std::future::Future>(f: F) -> F::Output {
     out
 }
 
+thread_local! {
+    static LINGER: std::cell::Cell<bool> = const { std::cell::Cell::new(false) };
+}
+
+/// Run `f` with delete/gc calls keeping their runtime alive for a few milliseconds after the
+/// operation returns (instead of the default process-exit semantics).
+pub fn with_linger<T>(f: impl FnOnce() -> T) -> T {
+    let old = LINGER.with(|l| l.replace(true));
+    let r = f();
+    LINGER.with(|l| l.set(old));
+    r
+}
+
 /// Like block_on, but on a runtime created for this call and dropped right after it.
 pub fn block_on_fresh<F: std::future::Future>(f: F) -> F::Output {
     let workers = WORKERS.with(|w| w.get());
@@ -312,12 +325,22 @@ pub fn list(t: Transport, band: Option<u32>, subtree: &str, excl: &[String]) -> 
 pub fn delete(t: Transport, _root: &Path, bands: &[u32], dry_run: bool, break_lock: bool) -> Outcome<DeleteStats> {
     let ids: Vec<BandId> = bands.iter().map(|b| BandId::new(&[*b])).collect();
     run(move |monitor| {
+        let linger = LINGER.with(|l| l.get());
         block_on_fresh(async {
             let archive = Archive::open(t).await.map_err(errstr)?;
-            archive
+            let r = archive
                 .delete_bands(&ids, &DeleteOptions { dry_run, break_lock }, monitor)
                 .await
-                .map_err(errstr)
+                .map_err(errstr);
+            if linger {
+                // a caller that keeps its runtime alive (a library user, or a process that
+                // does a little more before exiting): tasks spawned from Drop get to run
+                for _ in 0..5 {
+                    tokio::task::yield_now().await;
+                }
+                tokio::time::sleep(std::time::Duration::from_millis(3)).await;
+            }
+            r
         })
     })
 }
